@@ -399,9 +399,49 @@ def make_machine(max_n: int):
 
 def plan(tier: str) -> list[dict]:
     if tier == "quick":
-        return [{"max_n": 5, "examples": 300, "steps": 30, "cost": 3} for _ in range(5)]
-    return [{"max_n": 5, "examples": 1500, "steps": 60, "cost": 10} for _ in range(16)]
+        return [{"max_n": 5, "examples": 300, "steps": 30, "cost": 3} for _ in range(5)] + [{"mode": "fuzz", "runs": 4000, "cost": 3}]
+    return ([{"max_n": 5, "examples": 1500, "steps": 60, "cost": 10} for _ in range(14)]
+            + [{"mode": "fuzz", "runs": 150000, "cost": 10} for _ in range(2)])
+
+
+def run_fuzz(spec: dict, ctx: Ctx) -> None:
+    """Coverage-guided extra (atheris / libFuzzer over Hypothesis' byte decoding); skipped when atheris is not installed."""
+    import json
+    import os
+    import shutil
+    import subprocess
+    import sys
+    import tempfile
+    try:
+        import atheris  # noqa: F401
+    except Exception:  # noqa: BLE001
+        ctx.labels["fuzz-skipped(atheris not installed)"] += 1
+        return
+    d = tempfile.mkdtemp(prefix="vp-c17-fuzz-")
+    try:
+        out = os.path.join(d, "out.json")
+        r = subprocess.run([sys.executable, "-B", "-m", "vp.fuzz17", out, str(spec["runs"]), str(ctx.seed % (2**31)), d + "/"],
+                           capture_output=True, text=True, timeout=3600)
+        data = json.load(open(out)) if os.path.exists(out) else {"runs": 0, "failure": None}
+        if data.get("failure"):
+            f = data["failure"]
+            res = check_case(f["case"])        # confirm outside the fuzzer
+            ctx.record(f["case"], res)
+            if res.failures:
+                ctx.add_failure(f["case"], ["[coverage-guided] " + m for m in res.failures])
+            else:
+                ctx.labels["fuzz-crash-not-reproduced"] += 1
+        elif r.returncode != 0:
+            from ..core import HarnessError
+            raise HarnessError(f"fuzzer exited with {r.returncode}: {r.stderr[-800:]}")
+        ctx.extra["fuzz_executions"] = spec["runs"]
+        ctx.labels["fuzz-shard"] += 1
+    finally:
+        shutil.rmtree(d, ignore_errors=True)
 
 
 def run_shard(spec: dict, ctx: Ctx) -> None:
+    if spec.get("mode") == "fuzz":
+        run_fuzz(spec, ctx)
+        return
     ctx.run_machine(make_machine(spec["max_n"]), spec["examples"], spec["steps"])
